@@ -9,7 +9,7 @@ From TV Require Import Proofs.LexEquivBase Proofs.LexEquivTrivia Proofs.LexEquiv
                        Proofs.TilingDefs Proofs.PrintBackBase Proofs.PrintBackEnc Proofs.PrintBackKey Proofs.PrintBackValue Proofs.PrintBackDoc
                        Proofs.PrintBackSort Proofs.PrintBackEnts Proofs.PrintBackDisplay Proofs.PrintBackSecs Proofs.PrintBackState
                        Proofs.PrintBackHKey Proofs.PrintBackFinal Proofs.PrintBackSecDoc
-                       Proofs.PrintBackDVals Proofs.PrintBackDAll Proofs.PrintBackDState Proofs.PrintBackDKey Proofs.PrintBackDItems.
+                       Proofs.PrintBackDVals Proofs.PrintBackDAll Proofs.PrintBackDState Proofs.PrintBackDKey Proofs.PrintBackIValue Proofs.PrintBackDItems.
 From TV Require Proofs.DefsEquivSim Proofs.GrammarDocComplete.
 Require Import Lia ZifyBool ZifyN ZifyNat Sorting.Sorted Sorting.Permutation.
 
@@ -37,7 +37,7 @@ Section DDoc.
       /\ k_leaf k = decor_new (raw_with_span (pos i, pos j0)) (raw_with_span (pos jb, pos jk)) /\ splits jb w1 jk
       /\ isrc s jb /\ (pos ja < pos i1)%N
       /\ pre = pre_text s path k /\ R = krepr s k
-      /\ (vplain v = true -> forall ks P z, pre_text s ks (with_prefix k P) = pre ->
+      /\ (vok s v = true -> forall ks P z, pre_text s ks (with_prefix k P) = pre ->
             dline s (ks ++ [with_prefix k P], v) ++ z
             = raw_encode (traw s P) [] ++ (((pre ++ R) ++ w1 ++ [x3d] ++ w2 ++ o) ++ w ++ c) ++ [x0a] ++ z).
   Proof.
@@ -72,7 +72,7 @@ Section DDoc.
     destruct (isrc_splits s j1 [x3d] k1 Hj1 Se) as [Hk1 _].
     apply bind_inv in H2 as (pre' & k2 & E2 & H2). pose proof E2 as E2'. apply span_inv in E2' as (u2 & _ & Epre').
     apply span_ws_inv in E2 as (w2 & Hw2 & S2 & _). destruct (isrc_splits s k1 w2 k2 Hk1 S2) as [Hk2 _].
-    apply bind_inv in H2 as (v' & k3 & E3 & H2). destruct (value_render s k2 v' k3 Hk2 E3) as (t & a & o & Ht & S3 & Hk3 & Hv).
+    apply bind_inv in H2 as (v' & k3 & E3 & H2). destruct (value_renderK s k2 v' k3 Hk2 E3) as (t & a & o & Ht & S3 & Hk3 & Hv & _).
     apply bind_inv in H2 as (suf' & k4 & E4 & H2). apply context_inv in E4. rewrite line_trailing_unfold in E4.
     apply bind_inv in E4 as (sp & m1 & F1 & E4). pose proof F1 as F1'. apply span_inv in F1' as (u4 & _ & Esp).
     apply span_inv in F1 as (oc & F1 & _). apply bind_inv in F1 as (w & n1 & Fw & F1). apply ws_sound in Fw as (Hw & Sw & _).
@@ -107,7 +107,7 @@ Section DDoc.
       pose proof (splits_pos _ _ _ S2) as P4. pose proof (splits_pos _ _ _ S3) as P5. pose proof (splits_pos _ _ _ Swc) as P6.
       pose proof (splits_pos _ _ _ Sle) as P7. cbn [length] in P3. lia. }
     split; [symmetry; exact Epre|]. split; [symmetry; exact EkR|].
-    intros Hs ks P z Eks. rewrite vplain_decorate in Hs. unfold dline. cbn [fst snd].
+    intros Hs ks P z Eks. rewrite vok_decorate in Hs. unfold dline. cbn [fst snd].
     rewrite enc_split. unfold with_prefix.
     assert (E1 : decor_prefix (k_leaf (tkey s (set_leaf k (mkDecor (Some P) (d_suffix (k_leaf k)))))) (fst DEFAULT_KEY_DECOR) = raw_encode (traw s P) []).
     { rewrite tkey_fields. unfold decor_prefix, tdecor. cbn [set_leaf k_leaf d_prefix toraw]. apply raw_encode_traw. }
@@ -116,7 +116,7 @@ Section DDoc.
     assert (E3' : krepr s (set_leaf k (mkDecor (Some P) (d_suffix (k_leaf k)))) = R) by (rewrite <- EkR; reflexivity).
     rewrite E1, E2', E3'. unfold with_prefix in Eks. rewrite Eks.
     subst pre' sp.
-    rewrite (vrend_decorated s v' o k1 w2 k2 k3 (w ++ c) m1 Hv Hk1 S2 Hk3 Swc Hs _ DEFAULT_VALUE_DECOR (Nat.lt_succ_diag_r _)).
+    rewrite (vrendK_decorated s v' o k1 w2 k2 k3 (w ++ c) m1 Hv Hk1 S2 Hk3 Swc Hs _ DEFAULT_VALUE_DECOR (Nat.lt_succ_diag_r _)).
     rewrite (ncr_ws w2 Hw2), ncr_app, (ncr_ws w Hw), (ncr_opt_comment c Hc).
     repeat first [rewrite <- app_assoc | progress cbn [app]]. reflexivity.
   Qed.
@@ -184,7 +184,7 @@ Section DDoc.
     k_repr k = Some (raw_with_span (pos ja, pos jb)) -> pos ja = (pos j0 + N.of_nat (length pre))%N -> pos ja <> pos jb ->
     k_leaf k = decor_new (raw_with_span (pos i, pos j0)) (raw_with_span (pos jb, pos jk)) -> splits jb w1 jk -> isrc s jb ->
     pre = pre_text s path k -> R = krepr s k ->
-    (vplain v = true -> forall ks P z, pre_text s ks (with_prefix k P) = pre ->
+    (vok s v = true -> forall ks P z, pre_text s ks (with_prefix k P) = pre ->
        dline s (ks ++ [with_prefix k P], v) ++ z = raw_encode (traw s P) [] ++ body ++ [x0a] ++ z) ->
     isrc s j1 -> (pos ja < pos j1)%N -> at_start j1 -> splits j1 w i1 ->
     dinv (on_ws st0 (pos j1, pos i1)) i1 (out ++ ncr pend ++ w0 ++ body ++ [x0a]) j1 w.
